@@ -9,6 +9,19 @@ open AndaVerif.Gen
 
 deriving instance DecidableEq for Except
 
+/-- the generated scans say `every` at every site, so `scanned` is the identity (kernel-checked on the
+regenerated table: a guard that stops early in the source breaks exactly these facts) -/
+theorem scanned_every {α : Type} (site : String) (h : scanOf site = "every") (xs : List α) : scanned site xs = xs := by
+  simp [scanned, h]
+
+@[simp] theorem scanned_keys {α : Type} (xs : List α) : scanned "validate_clause.keys" xs = xs := scanned_every _ (by decide) xs
+@[simp] theorem scanned_facets {α : Type} (xs : List α) : scanned "validate_clause.facets" xs = xs := scanned_every _ (by decide) xs
+@[simp] theorem scanned_unset_facets {α : Type} (xs : List α) : scanned "validate_clause.unset_facets" xs = xs := scanned_every _ (by decide) xs
+@[simp] theorem scanned_update_actions {α : Type} (xs : List α) : scanned "validate_clause.update_actions" xs = xs := scanned_every _ (by decide) xs
+@[simp] theorem scanned_guard_actions {α : Type} (xs : List α) : scanned "guard_update.actions" xs = xs := scanned_every _ (by decide) xs
+@[simp] theorem scanned_guard_kinds {α : Type} (xs : List α) : scanned "guard_update.kinds" xs = xs := scanned_every _ (by decide) xs
+@[simp] theorem scanned_guard_fields {α : Type} (xs : List α) : scanned "guard_update.fields" xs = xs := scanned_every _ (by decide) xs
+
 theorem andThen_ok {a : Res} {b : Unit → Res} : andThen a b = .ok () ↔ a = .ok () ∧ b () = .ok () := by
   cases a with
   | error e => simp [andThen]
